@@ -302,6 +302,8 @@ func substDesc(fn *ssa.Function, c *ssa.Call, g *ssa.Function, d string, depth i
 
 func c11(r *Report, s *Sem) {
 	p := r.P
+	defer r.Import(s, "C01", "R1", "R6", "a reply's resource survives the wire: every exported field of every envelope kind and document wrapper is written by its encoder and restored by its decoder (a decoder rebuilt on a constructor drops what the constructor derives, e.g. a collection's total)", 60)
+	defer r.Import(s, "C01", "R10", "R7", "a reply's resource type survives the wire: the text form of a media type (and of the addresses) omits a field only where it is empty", 3)
 	R1 := r.Rule("R1", "Envelope.Sender returns the delegation node (PP) exactly on the edge where PP is non-zero, and From on the edge where PP is zero", 2)
 	R2 := r.Rule("R2", "reply builders copy id/method from the request, take From from the request's To and To from Sender() of the same envelope, and set the matching status/event/reason", 18)
 	R3 := r.Rule("R3", "every function (outside the wire decoder) that stores a document into Command.Resource / Message.Content also stores, on every path to its return, the Type derived from MediaType() of that same document — the encoder emits and the decoder requires them together", 2)
